@@ -4,8 +4,8 @@ Manage the seeded breaking changes under /verif/seeded/<name>/ (patch.diff, demo
 
   tools/seeded.py verify <name>      confirm the change: suite passes with it, demo fails with it and
                                      passes without it (done in a scratch worktree outside /repo and /verif)
-  tools/seeded.py run <name> [ids]   apply the patch to /repo, run the quick checks of the listed properties
-                                     (default: the property the change breaks), undo the patch, record outcome
+  tools/seeded.py run <name> [ids]   apply the patch to a scratch worktree of /repo, run the quick checks of the listed
+                                     properties against it (SA_REPO; default: the property the change breaks), remove it
   tools/seeded.py table              print the detection table (markdown) from the meta.json files
 """
 import json, os, subprocess, sys, shutil, time
@@ -51,27 +51,29 @@ def verify(name):
 
 
 def run(name, ids=None):
+    """apply the patch to a scratch worktree of /repo (outside /repo and /verif) and run the quick checks against it
+    through SA_REPO, so /repo itself is never touched and concurrent runs are not disturbed"""
     d = SEEDED / name
     meta = json.loads((d / "meta.json").read_text())
     ids = ids or [meta["property"]]
-    rc, out = sh("git status --porcelain", cwd=REPO)
-    assert out.strip() == "", "/repo has uncommitted changes: " + out
-    rc, out = sh(f"git apply {d/'patch.diff'}", cwd=REPO)
-    assert rc == 0, "patch does not apply: " + out
+    wt = Path(f"/tmp/seedrun_{name}")
+    sh(f"git -C {REPO} worktree remove --force {wt}")
+    rc, out = sh(f"git -C {REPO} worktree add -q --detach {wt} HEAD")
+    assert rc == 0, out
     res = {}
     try:
+        rc, out = sh(f"git apply {d/'patch.diff'}", cwd=wt)
+        assert rc == 0, "patch does not apply: " + out
         for pid in ids:
             t0 = time.time()
-            rc, out = sh(f"./check {pid} --tier quick", cwd=VERIF)
+            rc, out = sh(f"SA_REPO={wt} ./check {pid} --tier quick", cwd=VERIF)
             lines = [l for l in out.splitlines() if l.startswith(("VIOLATION", "PROPFAIL", "DISAGREE", "KNOWN", "LEAN-GATE", "HARNESS"))]
             viol = [l for l in lines if l.startswith("VIOLATION")]
             res[pid] = {"exit": rc, "violation": bool(viol),
                         "with_failing_input": bool(viol) and "no-failing-input-found" not in viol[0],
                         "first_lines": [l[:240] for l in lines[:3]], "wall_s": round(time.time() - t0, 1)}
     finally:
-        sh("git checkout -- .", cwd=REPO)
-        rc, out = sh("git status --porcelain", cwd=REPO)
-        assert out.strip() == "", "/repo not restored: " + out
+        sh(f"git -C {REPO} worktree remove --force {wt}")
     meta.setdefault("detected_by", {}).update(res)
     (d / "meta.json").write_text(json.dumps(meta, indent=1))
     for pid, r in res.items():
